@@ -8,7 +8,7 @@ RULE = ("Same scenario family as C03 with the generator weighted towards rcu_bar
         "rcu_barrier() terminates (deadlock/stuck/10x-budget). Non-trivial: a barrier was entered with >=1 such callback still pending. "
         " Up to 2 injected futex faults per case (k-th blocking FUTEX_WAIT returns spuriously or with EINTR). distinct = distinct case text.")
 ASSUMPTIONS = G.E1_ASSUMPTIONS + ["bounded: <=4 threads + main, <=12 ops per thread"]
-EXAMPLES = {"quick": 200, "thorough": 4000}
+EXAMPLES = {"quick": 360, "thorough": 4000}
 example = C.make_example(["barrier", "barrier", "barrier", "callrcu"])
 judge = C.make_judge(("rcu_barrier", "heap memory", "double free", "invalid pointer"), lambda text, res: G.flag(res, 3))
 confirm = C.confirm
